@@ -1,7 +1,8 @@
 """Extras: behaviour specified beyond the 20 listed properties (not in MANIFEST.checks).
    X01 string helpers (StrUtil.tla)   X02 GetClientIP (ClientIP.tla)   X03 FirstIP/LastIP (IpRange.tla)
    X04 Nano handler line format (NanoLine.tla, scenarios from JsonLineMC)   X05 ResponseWriter / reply helpers (HttpHelpers.tla)
-   X06 Logger front end (LogFront.tla)   X07 config value texts + usage (ValueLit.tla)   X08 ReadRand, ansi texts, SliceContain (Misc.tla)"""
+   X06 Logger front end (LogFront.tla)   X07 config value texts + usage (ValueLit.tla)   X08 ReadRand, ansi texts, SliceContain (Misc.tla)
+   X09 colour on versus colour off (Colour.tla)"""
 import json
 import vlib
 from vlib import judge
@@ -50,6 +51,12 @@ def run(ctx, which):
         rows = vlib.read_ndjson(out)
         bad, _, _ = judge(ctx, "misc", "Misc", rows, nshards=1, workers=4, timeout=600)
         what = lambda c: "%s: %s" % (c["kind"], json.dumps({k: v for k, v in c.items() if k != "kind"})[:300])
+    elif which == "X09":
+        ctx.run([hb, "-mode", "colour", "-out", out], timeout=300)
+        rows = vlib.read_ndjson(out)
+        bad, _, _ = judge(ctx, "logger", "Colour", rows, nshards=2, workers=2, timeout=600)
+        what = lambda c: "%s handler: plain %r colourful %r (%d AnsiString values with a prefix)" % (
+            c["kind"], bytes(c["plain"]).decode("latin1"), bytes(c["colour"]).decode("latin1"), c["nansi"])
     elif which == "X06":
         ctx.run([hb, "-mode", "front", "-out", out], timeout=600)
         rows = vlib.read_ndjson(out)
